@@ -836,7 +836,13 @@ def Array(
             try:
                 if _is_bit_array(cls.element_type):
                     chunk_size = cls.element_type.size * 8
-                    _chunks = len(values) // chunk_size
+                    if _num_values % chunk_size:
+                        raise DataError(f"boolean arrays must be a multiple of {chunk_size}: not {_num_values}")
+                    _chunks = _num_values // chunk_size
+                    if length is None and isinstance(cls.length, int) and _chunks < cls.length:
+                        raise DataError(
+                            f"Not enough values to encode array of {cls.element_type}[{cls.length}]"
+                        )
                     # fixed-length arrays truncate over-long input like any other array
                     _len = min(_chunks, _len) if isinstance(_length, int) else _chunks
                     values = [
